@@ -1,6 +1,7 @@
 package props
 
 import (
+	"bufio"
 	"bytes"
 	"context"
 	"errors"
@@ -112,6 +113,32 @@ func (r *faultReader) Read(p []byte) (int, error) {
 	return n, nil
 }
 
+// faultByteReader is a faultReader that also offers ReadByte (io.ByteReader), as bufio.Reader, bytes.Reader and many
+// user types do: a library that prefers ReadByte where it is offered must report its failures just the same.
+type faultByteReader struct{ faultReader }
+
+func (r *faultByteReader) ReadByte() (byte, error) {
+	var p [1]byte
+	n, err := r.faultReader.Read(p[:])
+	if n == 1 {
+		// a byte that came together with the error is handed out first; the sticky error follows on the next call
+		return p[0], nil
+	}
+	return 0, err
+}
+
+// faultSource wraps the fault reader in one of the source kinds; it returns the reader to hand to the library
+func faultSource(rd *faultReader, kind int) (io.Reader, *faultReader, string) {
+	switch kind % 3 {
+	case 1:
+		br := &faultByteReader{*rd}
+		return br, &br.faultReader, "source with ReadByte"
+	case 2:
+		return bufio.NewReaderSize(rd, 16), rd, "*bufio.Reader (16 bytes) on the failing source"
+	}
+	return rd, rd, "plain io.Reader"
+}
+
 func (r *faultReader) fault() error {
 	if r.err != nil {
 		return r.err
@@ -209,12 +236,13 @@ func runC10(c *mon.Ctx) {
 		// ---- source faults
 		for _, k := range offsets {
 			for _, withData := range []bool{false, true} {
-				rd := &faultReader{b: b, limit: k, withData: withData, err: faultKinds[(k+int(i)+3)%len(faultKinds)]}
+				src, rd, srcKind := faultSource(&faultReader{b: b, limit: k, withData: withData, err: faultKinds[(k+int(i)+3)%len(faultKinds)]}, k+int(i))
 				var s *smf.SMF
 				var err error
-				in["fault_offset"], in["error_with_data"], in["error_kind"] = k, withData, fmt.Sprintf("%T", rd.err)
+				in["fault_offset"], in["error_with_data"], in["error_kind"], in["source_kind"] = k, withData, fmt.Sprintf("%T", rd.err), srcKind
 				c.SetAdd("read_error_kinds", fmt.Sprintf("%T", rd.err))
-				if c.Guard("panic:ReadFrom", in, func() { s, err = smf.ReadFrom(rd) }) {
+				c.SetAdd("read_fault_source_kinds", srcKind)
+				if c.Guard("panic:ReadFrom", in, func() { s, err = smf.ReadFrom(src) }) {
 					continue
 				}
 				c.Eval(1)
@@ -231,7 +259,7 @@ func runC10(c *mon.Ctx) {
 					if s != nil {
 						nt = len(s.Tracks)
 					}
-					c.Violation("read-fault-swallowed", fmt.Sprintf("source failed with a non-EOF error at byte offset %d of %d (returned %d times) but ReadFrom returned nil error (value with %d tracks)", k, len(b), rd.returned, nt), in, "error", "nil")
+					c.Violation("read-fault-swallowed", fmt.Sprintf("source (%s) failed with a non-EOF error at byte offset %d of %d (returned %d times) but ReadFrom returned nil error (value with %d tracks)", srcKind, k, len(b), rd.returned, nt), in, "error", "nil")
 				}
 				c.DistinctBytes([]byte(fmt.Sprint("r", i, k, withData)))
 			}
@@ -318,11 +346,11 @@ func runC10(c *mon.Ctx) {
 		in := map[string]any{"file": fmt.Sprintf("%d bytes with one payload of %d bytes starting at offset %d", len(b), n, start)}
 		for _, k := range offs {
 			for _, withData := range []bool{false, true} {
-				rd := &faultReader{b: b, limit: k, withData: withData}
+				src, rd, srcKind := faultSource(&faultReader{b: b, limit: k, withData: withData}, k+int(i))
 				var v *smf.SMF
 				var err error
-				in["fault_offset"], in["error_with_data"] = k, withData
-				if c.Guard("panic:ReadFrom", in, func() { v, err = smf.ReadFrom(rd) }) {
+				in["fault_offset"], in["error_with_data"], in["source_kind"] = k, withData, srcKind
+				if c.Guard("panic:ReadFrom", in, func() { v, err = smf.ReadFrom(src) }) {
 					continue
 				}
 				c.Eval(1)
